@@ -28,9 +28,6 @@ Print Assumptions C18_tar_corruption.
 
 (* the formats that take precedence over tar (the property's "higher-priority signature") are exactly the root
    formats listed before it in the specification: tar sits right after exe, elf and ar *)
-Definition before_tar_spec : list string :=
-  ["xpm"; "sevenZ"; "zip"; "pdf"; "fdf"; "ole"; "ps"; "psd"; "p7s"; "ogg"; "png"; "jpg"; "jxl"; "jp2"; "jpx"; "jpm"; "jxs";
-   "gif"; "webp"; "exe"; "elf"; "ar"]%string.
 Fixpoint take_until (v : string) (l : list string) : list string :=
   match l with [] => [] | x :: l' => if String.eqb x v then [] else x :: take_until v l' end.
 Definition root_kid_vars : list string :=
